@@ -328,6 +328,92 @@ type ExprTerm struct {
 	Expression *Expression `| "(" @@? ")"`
 }
 
+// checkTerms reports the first term inside the expression that cannot be
+// converted (unbound parameter, malformed date or byte literal, variable inside
+// a set). The ToExpr methods have no error result, so callers that can report
+// an error run this first.
+func (e *Expression) checkTerms(parameters ParametersMap) error {
+	if e == nil {
+		return nil
+	}
+	if err := e.Left.checkTerms(parameters); err != nil {
+		return err
+	}
+	for _, op := range e.Right {
+		if err := op.Expr1.checkTerms(parameters); err != nil {
+			return err
+		}
+	}
+	return nil
+}
+
+func (e *Expr1) checkTerms(parameters ParametersMap) error {
+	if err := e.Left.checkTerms(parameters); err != nil {
+		return err
+	}
+	for _, op := range e.Right {
+		if err := op.Expr2.checkTerms(parameters); err != nil {
+			return err
+		}
+	}
+	return nil
+}
+
+func (e *Expr2) checkTerms(parameters ParametersMap) error {
+	if err := e.Left.checkTerms(parameters); err != nil {
+		return err
+	}
+	if e.Right != nil {
+		return e.Right.Expr3.checkTerms(parameters)
+	}
+	return nil
+}
+
+func (e *Expr3) checkTerms(parameters ParametersMap) error {
+	if err := e.Left.checkTerms(parameters); err != nil {
+		return err
+	}
+	for _, op := range e.Right {
+		if err := op.Expr4.checkTerms(parameters); err != nil {
+			return err
+		}
+	}
+	return nil
+}
+
+func (e *Expr4) checkTerms(parameters ParametersMap) error {
+	if err := e.Left.checkTerms(parameters); err != nil {
+		return err
+	}
+	for _, op := range e.Right {
+		if err := op.Expr5.checkTerms(parameters); err != nil {
+			return err
+		}
+	}
+	return nil
+}
+
+func (e *Expr5) checkTerms(parameters ParametersMap) error {
+	return e.Expr6.checkTerms(parameters)
+}
+
+func (e *Expr6) checkTerms(parameters ParametersMap) error {
+	if e.Left.Term != nil {
+		if _, err := e.Left.Term.ToBiscuit(parameters); err != nil {
+			return err
+		}
+	}
+	if err := e.Left.Expression.checkTerms(parameters); err != nil {
+		return err
+	}
+	for _, op := range e.Right {
+		if err := op.Expression.checkTerms(parameters); err != nil {
+			return err
+		}
+	}
+	return nil
+}
+
 func (e *Expression) ToExpr(expr *biscuit.Expression, parameters ParametersMap) {
 	e.Left.ToExpr(expr, parameters)
 
@@ -584,6 +670,9 @@ func (r *Rule) ToBiscuit(parameters ParametersMap) (*biscuit.Rule, error) {
 			}
 		case p.Expression != nil:
 			{
+				if err := p.Expression.checkTerms(parameters); err != nil {
+					return nil, err
+				}
 				var expr biscuit.Expression
 				(*p.Expression).ToExpr(&expr, parameters)
 
@@ -636,6 +725,9 @@ func (r *CheckQuery) ToBiscuit(parameters ParametersMap) (*biscuit.Rule, error) 
 			}
 		case p.Expression != nil:
 			{
+				if err := p.Expression.checkTerms(parameters); err != nil {
+					return nil, err
+				}
 				var expr biscuit.Expression
 				(*p.Expression).ToExpr(&expr, parameters)
 
